@@ -74,12 +74,16 @@ def add_convert(case, ids=("A", "B"), stateless=False):
     case.op(op, ids[1])
 
 
-def add_transport(case, parsed, plan, ids=("A", "B"), stateless=False, nonces=None, prefix="t", buf=BIGBUF):
+def add_transport(case, parsed, plan, ids=("A", "B"), stateless=False, nonces=None, prefix="t", buf=BIGBUF, rekey_at=()):
     """plan: list of (dir, payload spec) with dir 0 = initiator->responder, 1 = back.
-    stateless: nonces list (per message) or default the per-direction counter"""
+    stateless: nonces list (per message) or default the per-direction counter.
+    rekey_at: message indices before which the sender rekeys its outgoing and the receiver its incoming key"""
     cnt = [0, 0]
     for k, (d, pay) in enumerate(plan):
         w, r = (ids[0], ids[1]) if d == 0 else (ids[1], ids[0])
+        if k in rekey_at:
+            case.op("rekey_out", w)
+            case.op("rekey_in", r)
         reg = "%s%d" % (prefix, k)
         if stateless:
             n = nonces[k] if nonces else cnt[d]
